@@ -127,6 +127,17 @@ CLAIMED = {
         'independent TZif reader for the zone files zoneinfo uses, instants 1971..2036; text <-> numeric fields by the harness regex.  DST abbreviations (MST/MDT) cannot be run '
         'against the implementation here (support_abbreviations needs classic pytz; the environment has the zoneinfo shim): those theorems stand on the model alone.',
    technique='Coq proof (nia bounds for round-half-even, periodicity + computed era for the calendar, list induction for zones, digit lemmas for durations) + correspondence', design='6 C17'),
+ 'C18': dict(
+   text='Coq theorems (Properties/C18.v) over a model of reader.open (file selection, pacing) and loader.load (all seven states, _strict release rule, future queue, limit): '
+        'for EVERY history, look-ahead, limit and schedule of load() calls the delivered records are in timestamp order, each is a logged record with its logged values, none '
+        'is delivered before clock + look-ahead reaches it, and on COMPLETE the register map is the fold of the delivered records; the switching / initial file selection is '
+        'characterised.  The "exactly once" clause is machine-refuted on the faithful model by three witnesses (re-delivery of an equal-timestamp file reached from AWAITING; a '
+        'newer file starting at the all-equal timestamp of the previous one skipped; endless re-opening after trailing non-data records) - each reproduced on cpppo and recorded '
+        'as a known finding.  Tie: generated histories written to real rotated plain/gz/bz2 files and replayed by the live loader under a frozen clock, every load() compared '
+        '(state, events, final map) with the extracted model; the property judged on the implementation by an independent oracle.',
+   note='Trusted: Coq kernel; extraction + driver; frozen clock via files.timer/times.timer replaced from outside; factor 1, no duration/upcoming, default on_bad_* flags; '
+        'timestamps multiples of 10 ms.  Partial: exactly-once holds only outside the three recorded shapes (no general positive theorem; the check reports any other shape).',
+   technique='Coq proof (invariant over the loader state machine, induction over fuel and schedule; vm_compute refutation witnesses) + correspondence', design='6 C18'),
 }
 PENDING = {}
 ALL = ['C%02d' % i for i in range(1, 21)]
